@@ -32,24 +32,25 @@ from lxml import etree
 
 from mbt.catalog import sinks as C
 
-AMP, LT, GT, QUOT, APOS, CDEND, ENT, CDOPEN, PLAIN, SP, NBSP, ASTRAL, C1, TAB, LF, CR, ELEM, PCT = range(1, 19)
+AMP, LT, GT, QUOT, APOS, CDEND, ENT, CDOPEN, PLAIN, SP, NBSP, ASTRAL, C1, TAB, LF, CR, ELEM, PCT, FMT = range(1, 20)
 CLASS_NAMES = {1: "AMP", 2: "LT", 3: "GT", 4: "QUOT", 5: "APOS", 6: "CDEND", 7: "ENT", 8: "CDOPEN", 9: "PLAIN", 10: "SP", 11: "NBSP",
-               12: "ASTRAL", 13: "C1", 14: "TAB", 15: "LF", 16: "CR", 17: "ELEM", 18: "PCT"}
+               12: "ASTRAL", 13: "C1", 14: "TAB", 15: "LF", 16: "CR", 17: "ELEM", 18: "PCT", 19: "FMT"}
 BASE_ALPHA = [AMP, LT, GT, QUOT, APOS, CDEND, ENT, CDOPEN, PLAIN, SP]
 CORE_ALPHA = [AMP, LT, GT, QUOT, APOS, CDEND, PLAIN, SP]        # length 3 (thorough): the single-character classes and "]]>"
-WIDE_ALPHA = [NBSP, ASTRAL, C1, ELEM, PCT]                      # PCT: a percent-escape such as "%20" (a URL layer must not decode or re-encode it)                           # ELEM: a complete element such as "<b/>" (makes structure if not escaped)
+WIDE_ALPHA = [NBSP, ASTRAL, C1, ELEM, PCT, FMT]   # FMT: a str.format / printf field such as "{0}" or "%s" (a template layer must not interpret it)                      # PCT: a percent-escape such as "%20" (a URL layer must not decode or re-encode it)                           # ELEM: a complete element such as "<b/>" (makes structure if not escaped)
 CTL_ALPHA = [TAB, LF, CR]
 # representatives: every ENT representative is a well-formed reference (an unescaped sink decodes it silently), so that the
 # outcome of a case depends on its classes only and signatures do not depend on the seed
 REPS = {
     AMP: ["&"], LT: ["<"], GT: [">"], QUOT: ['"'], APOS: ["'"], CDEND: ["]]>"],
     ENT: ["&amp;", "&#60;", "&lt;", "&quot;", "&#x26;"], CDOPEN: ["<![CDATA["],
-    PLAIN: ["a", "Z", "0", "_", "]", ";", "#", "-", "=", "%", "{", "}", "\\", "\u00e9", "\u6f22", "\ud7ff", "\ue000", "\ufffd", "\x7f"],
+    PLAIN: ["a", "Z", "0", "_", "]", ";", "#", "-", "=", "%", "\\", "\u00e9", "\u6f22", "\ud7ff", "\ue000", "\ufffd", "\x7f"],
     SP: [" "], NBSP: ["\u00a0", "\u3000", "\u2028", "\ufeff"], ASTRAL: ["\U00010000", "\U0001F600", "\U0010FFFF", "\U0002F800", "\U0001FFFE"],
     C1: ["\x80", "\x85", "\x9f"], TAB: ["\t"], LF: ["\n"], CR: ["\r"], ELEM: ["<b/>", "<i></i>", "<br/>"],
     PCT: ["%20", "%41", "%25", "%2F", "%C3%A9"],
+    FMT: ["{0}", "{x}", "%s", "%d", "%(a)s", "{{", "}}", "{", "}"],
 }
-_MULTI = [(rep, cls + 32 * (0x110000 + k)) for cls in (CDOPEN, CDEND, ENT, ELEM, PCT) for k, rep in enumerate(REPS[cls])]
+_MULTI = [(rep, cls + 32 * (0x110000 + k)) for cls in (CDOPEN, CDEND, ENT, ELEM, PCT, FMT) for k, rep in enumerate(REPS[cls])]
 _MULTI.sort(key=lambda x: -len(x[0]))
 _MULTI_START = {m[0][0] for m in _MULTI}
 _MULTI_BY_TOK = {tok: rep for rep, tok in _MULTI}
